@@ -18,6 +18,19 @@ const LEAVES: &[&str] = &[
 const L2: &[&str] = &["a", "1", "-1", "1.5", "'x'", "null", "t.a", "`my col`"];
 const LONG: &str = "a_very_long_identifier_number_one";
 
+/// leaves of the compositional family
+const CLEAVES: &[&str] = &["a", "1", "-a", "-1", "'x'", "a + b", "f a", "a.b"];
+/// one-hole contexts; the first CONTEXTS_CORE are the ones used at the outer level of quick depth-2 nestings
+const CONTEXTS_CORE: usize = 14;
+const CONTEXTS: &[&str] = &[
+    "x + §", "§ + x", "x * §", "x ** §", "§ ** x", "x == §", "x && §", "x ?? §", "-§", "!§", "f §", "f x §", "(x | f §)", "(§ | f)",
+    "x - §", "§ - x", "x / §", "§ * x", "§ == x", "§ && x", "§ ?? x", "x < §", "x || §", "x ~= §",
+    "§..x", "x..§", "(x | in §..y)",
+    "f n:§ x", "f § x", "g.h §", "(f § | g)", "(f x | g §)",
+    "{§}", "{y = §}", "{x, §}", "[§]", "case [§ => x]", "case [x => §]", "case [x => y, true => §]",
+    "x -> §", "f\"{§}\"", "s\"{§}\"", "+§", "==§",
+];
+
 fn par(s: &str) -> String {
     format!("({s})")
 }
@@ -41,7 +54,7 @@ fn encode_dq(s: &str) -> String {
 
 /// One expression source (naively parenthesised) per execution.
 fn gen_expr(c: &mut Ctx, tier: Tier) -> Option<String> {
-    let fam = c.choose(14, "family");
+    let fam = c.choose(15, "family");
     Some(match fam {
         0 => c.pick(LEAVES, "leaf").to_string(),
         1 => {
@@ -162,6 +175,24 @@ fn gen_expr(c: &mut Ctx, tier: Tier) -> Option<String> {
                 _ => format!("{{{id} = 1, x = {id}}}"),
             }
         }
+        14 => {
+            // compositional: one-hole contexts nested to depth 2 (quick) / 3 (thorough) around a leaf,
+            // every hole filled with a parenthesised text unless it is an atom
+            let depth = 1 + c.choose(tier.pick(2, 3), "depth");
+            let mut s = c.pick(CLEAVES, "cleaf").to_string();
+            for level in 0..depth {
+                // the outermost level of the deepest nesting uses the reduced context list in the quick tier
+                let ctxs: &[&str] = if (tier == Tier::Quick && depth == 2 && level == 1) || (depth == 3 && level == 2) { &CONTEXTS[..CONTEXTS_CORE] } else { CONTEXTS };
+                let ctx = *c.pick(ctxs, "ctx");
+                let atom = s.chars().all(|ch| ch.is_ascii_alphanumeric() || ch == '\'' || ch == '.');
+                let fill = if atom { s.clone() } else { par(&s) };
+                s = ctx.replace('§', &fill);
+            }
+            if depth == 3 {
+                s.insert(0, '\u{1}');
+            }
+            s
+        }
         _ => {
             // long operands that force wrapping
             let l = LONG;
@@ -180,7 +211,10 @@ fn gen_expr(c: &mut Ctx, tier: Tier) -> Option<String> {
 /// one embedded source per execution (shared with C15)
 pub fn gen_source(c: &mut Ctx, tier: Tier) -> Option<String> {
     let e = gen_expr(c, tier)?;
-    let emb = if tier == Tier::Thorough { c.choose(EMBEDDINGS.len(), "embedding") } else { c.choose(4, "embedding") };
+    // the deepest compositional nestings go into two statement kinds only
+    let deep = e.starts_with('\u{1}');
+    let e = e.trim_start_matches('\u{1}').to_string();
+    let emb = if deep { c.choose(2, "embedding") } else if tier == Tier::Thorough { c.choose(EMBEDDINGS.len(), "embedding") } else { c.choose(4, "embedding") };
     Some(EMBEDDINGS[emb].replace('§', &e))
 }
 
@@ -450,7 +484,7 @@ pub fn run(tier: Tier) -> i32 {
     }
     run.states = sources.len() as u64;
     run.transitions = st.points;
-    run.set("bounds", json!({"expression_families": 14, "binary_operators": BINOPS, "leaves": LEAVES.len(), "embeddings": tier.pick(4, EMBEDDINGS.len()), "statements": STATEMENTS.len(), "seeds": "integration queries + book examples + hand seeds", "string_alphabet": "a ' \" \\ LF { } é, length <= 2 (quick) / 3 (thorough)"}));
+    run.set("bounds", json!({"expression_families": 15, "compositional_contexts": CONTEXTS.len(), "compositional_depth": tier.pick(2, 3), "binary_operators": BINOPS, "leaves": LEAVES.len(), "embeddings": tier.pick(4, EMBEDDINGS.len()), "statements": STATEMENTS.len(), "seeds": "integration queries + book examples + hand seeds", "string_alphabet": "a ' \" \\ LF { } é, length <= 2 (quick) / 3 (thorough)"}));
     run.set("rule", json!("source s0 (naively parenthesised) → p0 = parse(s0), s1 = format(p0), p1 = parse(s1): p1 must exist and equal p0 modulo spans and doc comments, format(p1) = s1, and compile(s1) = compile(s0) where s0 compiles; sources that do not parse are outside the domain"));
     run.assume("syntax trees are compared through their serde JSON with `span` and `doc_comment` removed");
     run.finish()
